@@ -52,7 +52,7 @@ PROP = "C16"
 CFG = "INIT Init\nNEXT Next\nINVARIANT Report\nINVARIANT InputSane\nINVARIANT RefSane\nCHECK_DEADLOCK FALSE\n"
 K = 10000                 # fixed-point unit of spec/Hull.tla
 FAR = 10000
-BIG = 1024
+BIGE = 10                 # the base families' scale is 2^10
 LIMIT = 5.0e4             # |value| (in lattice steps) representable in the fixed point of the spec
 DEV_HULL_FAR = "HullFarFromOriginNotWatertight"
 DEV_SPHERE = "MinimumNsphereIgnoresSmallSupport"
@@ -82,19 +82,38 @@ def fxv(name, v, n):
 
 
 class Place:
-    """q = (p + off) * sc, exact in doubles; back() is the exact way back"""
+    """q[a] = (p[a] + off[a]) * 2^sce[a], exact in doubles; back() is the exact way back.  sce is one exponent
+    (the same on every axis) or one per axis (flat-ish / needle-like sets: hull and aabb only)"""
 
-    def __init__(self, name, off, sc):
-        self.name, self.off, self.sc = name, np.array(off, dtype=np.float64), float(sc)
+    def __init__(self, name, off, sce):
+        self.name, self.off = name, np.array(off, dtype=np.float64)
+        self.sce = [int(e) for e in (sce if isinstance(sce, (list, tuple, np.ndarray)) else [sce] * len(self.off))]
+        if len(self.sce) != len(self.off):
+            raise MachineryError("placement: one exponent per axis expected")
+        self.scv = np.array([2.0 ** e for e in self.sce])
+        self.uniform = len(set(self.sce)) == 1
+
+    @property
+    def sc(self):
+        if not self.uniform:
+            raise MachineryError("a length was mapped back through a placement that scales the axes differently")
+        return float(self.scv[0])
+
+    def moved(self, v):
+        return Place(self.name, self.off + np.asarray(v, dtype=np.float64), self.sce)
+
+    def scaled(self, k):
+        return Place(self.name, self.off, [e + k for e in self.sce])
 
     def fwd(self, P):
-        return (np.asarray(P, dtype=np.float64) + self.off) * self.sc
+        return (np.asarray(P, dtype=np.float64) + self.off) * self.scv
 
     def back(self, X):
-        return np.asarray(X, dtype=np.float64) / self.sc - self.off
+        return np.asarray(X, dtype=np.float64) / self.scv - self.off
 
     def size(self, x):
-        return np.asarray(x, dtype=np.float64) / self.sc
+        x = np.asarray(x, dtype=np.float64)
+        return x / self.scv if x.shape == self.scv.shape else x / self.sc
 
     def frame(self, T, d):
         """(d+1)x(d+1) matrix taking placed coordinates to a frame -> rotation rows and translation of
@@ -107,7 +126,11 @@ class Place:
         return [fxv("rotation", W[r], d) for r in range(d)], fxv("translation", t, d)
 
 
-def hull_obs(api, h, pts, pl, tol=1e-9):
+def eps_of(grid):
+    return 10 if grid == 3 else 25      # spec/Hull.tla: slack of the fixed-point containment clauses
+
+
+def hull_obs(api, h, pts, pl, tol=1e-9, raw=False):
     P = np.asarray(pts, dtype=np.float64)
     V = pl.back(np.asarray(h.vertices, dtype=np.float64).reshape(-1, 3))
     hv = []
@@ -117,11 +140,15 @@ def hull_obs(api, h, pts, pl, tol=1e-9):
     F = np.asarray(h.faces)
     if F.size and (F.ndim != 2 or F.shape[1] != 3):
         raise Raised("shape_faces")
-    area = np.asarray(h.area_faces, dtype=np.float64) / pl.sc ** 2
-    return {"api": api, "hv": hv, "hf": F.astype(np.int64).reshape(-1, 3).tolist(),
+    F = F.astype(np.int64).reshape(-1, 3)
+    zero = 0
+    if F.size and F.min() >= 0 and F.max() < len(V):       # statistics only: faces without area, in lattice units
+        tri = V[F]
+        zero = int((np.linalg.norm(np.cross(tri[:, 1] - tri[:, 0], tri[:, 2] - tri[:, 0]), axis=1) < 2e-9).sum())
+    return {"api": api, "hv": hv, "hf": F.tolist(), "raw": bool(raw),
             "wt": bool(h.is_watertight), "wc": bool(h.is_winding_consistent),
             "volpos": bool(h.volume > 0), "cvx": bool(h.is_convex),
-            "zero_area_faces": int((area < 1e-9).sum())}
+            "zero_area_faces": zero}
 
 
 def lattice(sn, name, X):
@@ -171,21 +198,52 @@ def sphere_obs(api, center, radius, pl, d):
     return o
 
 
-def box_obs(api, T, ext, pl, d, newv=None):
+def ball_obs(api, center, radius, pl, eps):
+    """larger sets: the reported ball in fixed point only (kind ballc)"""
+    c = pl.back(np.asarray(center, dtype=np.float64).reshape(-1))
+    if c.shape != (3,):
+        raise Raised("shape_center")
+    return {"api": api, "C": fxv("sphere_center", c, 3), "R": fx("sphere_radius", pl.size(radius)), "eps": eps}
+
+
+def box_obs(api, T, ext, pl, d, newv=None, eps=10):
     W, t = pl.frame(T, d)
-    o = {"api": api, "W": W, "t": t, "ext": fxv("extents", pl.size(ext), d), "hasnew": newv is not None, "newv": []}
+    o = {"api": api, "W": W, "t": t, "ext": fxv("extents", pl.size(ext), d), "hasnew": newv is not None, "newv": [],
+         "eps": eps}
     if newv is not None:
-        nv = pl.size(np.asarray(newv, dtype=np.float64))
+        nv = np.asarray(newv, dtype=np.float64) / pl.sc
         o["newv"] = [fxv("moved_vertex", v, d) for v in nv]
     return o
 
 
-def cyl_obs(api, transform, radius, height, pl):
+UN = 1000000              # unit of the normalised oriented-box record (spec/Hull.tla, kind obbn)
+
+
+def boxn_obs(api, T, ext, newv):
+    """apply_obb on a set whose axes are scaled differently: the rotation part of the matrix and the moved
+    vertices in units of half the reported extent (the box frame is no rigid image of the lattice)"""
+    T = np.asarray(T, dtype=np.float64)
+    ext = np.asarray(ext, dtype=np.float64).reshape(-1)
+    nv = np.asarray(newv, dtype=np.float64)
+    if T.shape != (4, 4) or ext.shape != (3,) or nv.ndim != 2 or nv.shape[1] != 3:
+        raise Raised("shape_transform")
+    if not (np.isfinite(ext).all() and (ext > 0).all()):
+        raise Raised("extent_not_positive")
+    u = nv / (ext / 2.0)
+    if not np.isfinite(u).all():
+        raise Raised("nonfinite_moved_vertex")
+    u = np.clip(u, -1000.0, 1000.0)
+    return {"api": api, "W": [fxv("rotation", T[r, :3], 3) for r in range(3)],
+            "u": [[int(round(x * UN)) for x in row] for row in u]}
+
+
+def cyl_obs(api, transform, radius, height, pl, eps=10):
     M = np.asarray(transform, dtype=np.float64)
     if M.shape != (4, 4) or not np.isfinite(M).all():
         raise Raised("shape_transform")
     W, t = pl.frame(np.linalg.inv(M), 3)
-    return {"api": api, "W": W, "t": t, "r": fx("radius", pl.size(radius)), "h": fx("height", pl.size(height))}
+    return {"api": api, "W": W, "t": t, "r": fx("radius", pl.size(radius)), "h": fx("height", pl.size(height)),
+            "eps": eps}
 
 
 def guarded(rec, name, thunk):
@@ -207,11 +265,12 @@ WIDE_L = 100000
 
 def observe_wide(trimesh, it):
     """hull of tight lattice clusters far apart: point = cl * L + lo (spec/Hull.tla, kind hullw)"""
-    pl = Place(it["place"], it["off"], it["sc"])
+    pl = Place(it["place"], it["off"], it["sce"])
     P = np.array([[c * WIDE_L + l for c, l in zip(cl, lo)] for cl, lo in it["pts"]], dtype=np.float64)
     Q = pl.fwd(P)
     rec = {"exc": "", "kind": "hullw", "dim": 3, "L": WIDE_L, "pts": [[list(cl), list(lo)] for cl, lo in it["pts"]],
-           "off": [int(x) for x in it["off"]], "sc": int(it["sc"]), "sane": bool(it["sane"]), "item": it["k"], "obs": []}
+           "off": [int(x) for x in it["off"]], "sce": pl.sce, "grid": 3, "sane": bool(it["sane"]), "item": it["k"],
+           "obs": []}
     guarded(rec, "convex_hull", lambda: hull_obs("ch", trimesh.convex.convex_hull(Q.copy()), P, pl, tol=1e-6))
     guarded(rec, "pc.convex_hull", lambda: hull_obs("pc", trimesh.PointCloud(Q.copy()).convex_hull, P, pl, tol=1e-6))
     return [rec]
@@ -231,7 +290,7 @@ def observe_history(trimesh, it):
     """one object, a script of reads and exact moves; every read is one record whose pts are the
     vertices the object has at that moment (read back AFTER the volumes of the group were read, so
     that the harness does not touch the vertex array between a move and the reads that follow it)"""
-    pl = Place(it["place"], it["off"], it["sc"])
+    pl = Place(it["place"], it["off"], it["sce"])
     Q = pl.fwd(it["pts"])
     if it["faces"] is None:
         g = trimesh.PointCloud(Q.copy())
@@ -267,7 +326,7 @@ def observe_history(trimesh, it):
         return o
 
     def read(kind, name, thunk):
-        r = {"exc": "", "kind": kind, "dim": 3, "pts": None, "off": [int(x) for x in pl.off], "sc": int(pl.sc),
+        r = {"exc": "", "kind": kind, "dim": 3, "pts": None, "off": [int(x) for x in pl.off], "sce": pl.sce, "grid": 3,
              "sane": False, "item": it["k"], "hist": "/".join(done + [name]), "obs": []}
         guarded(r, name, thunk)
         group.append(r)
@@ -275,14 +334,7 @@ def observe_history(trimesh, it):
         done.append(name)
 
     def prim_obs(p):
-        kind = type(p).__name__
-        if kind == "Box":
-            return "obb", box_obs(tag, np.linalg.inv(np.asarray(p.primitive.transform, dtype=np.float64)), p.primitive.extents, pl, 3)
-        if kind == "Sphere":
-            return "sphere", sphere_obs(tag, p.primitive.center, p.primitive.radius, pl, 3)
-        if kind == "Cylinder":
-            return "cyl", cyl_obs(tag, p.primitive.transform, p.primitive.radius, p.primitive.height, pl)
-        raise Raised("primitive_" + kind)
+        return primitive_obs(p, tag, pl)
 
     for step in it["script"]:
         op = step[0]
@@ -314,7 +366,8 @@ def observe_history(trimesh, it):
                 return box_obs("apply", M, ext, pl, 3, newv=np.asarray(g.vertices))
             flush()
             r = {"exc": "", "kind": "obb", "dim": 3, "pts": current(), "off": [int(x) for x in pl.off],
-                 "sc": int(pl.sc), "sane": False, "item": it["k"], "hist": "/".join(done + ["apply_obb"]), "obs": []}
+                 "sce": pl.sce, "grid": 3, "sane": False, "item": it["k"], "hist": "/".join(done + ["apply_obb"]),
+                 "obs": []}
             guarded(r, "apply_obb", applied)
             out.append(r)
             break           # the vertices are no lattice points any more
@@ -323,10 +376,12 @@ def observe_history(trimesh, it):
             if op == "translate":
                 v = np.array(step[1], dtype=np.float64)
                 g.apply_translation(v * pl.sc)
-                pl = Place(pl.name, pl.off + v, pl.sc)
+                pl = pl.moved(v)
             elif op == "scale":
-                g.apply_scale(float(step[1]))
-                pl = Place(pl.name, pl.off, pl.sc * step[1])
+                if step[1] != 2:
+                    raise MachineryError("histories scale by 2 only")
+                g.apply_scale(2.0)
+                pl = pl.scaled(1)
             elif op == "symmetry":
                 S, c = cube_symmetry(step[1], step[2])
                 M = np.eye(4)
@@ -340,22 +395,314 @@ def observe_history(trimesh, it):
     return out
 
 
+def exact_as(Q, dtype):
+    """the placed coordinates survive the conversion to `dtype` unchanged"""
+    with np.errstate(all="ignore"):
+        return bool(np.abs(Q).max() < 2.0 ** 31 and (Q.astype(dtype).astype(np.float64) == Q).all())
+
+
+def observe_variants(trimesh, it, pl, Q, recs):
+    """other options and containers that reach the same code (audit): more observations in the records of
+    the item, judged by the same clauses (api names stay short: clause names are prefixed with them)"""
+    B, NS, CV = trimesh.bounds, trimesh.nsphere, trimesh.convex
+    P, d = it["pts"], it["dim"]
+    as_list = lambda: [[float(x) for x in q] for q in Q]
+    conts = [("L", as_list)]
+    if exact_as(Q, np.int64):
+        conts.append(("I", lambda: Q.astype(np.int64)))
+    if exact_as(Q, np.float32):
+        conts.append(("32", lambda: Q.astype(np.float32)))
+    conts.append(("F", lambda: np.asfortranarray(Q.copy())))
+    conts.append(("V", lambda: np.repeat(Q, 2, axis=0)[::2]))        # a strided view
+    if d == 2:
+        r = recs["obb"]
+        for c, mk in conts:
+            guarded(r, "oriented_bounds_2D(%s)" % c, lambda: box_obs("o2" + c, *B.oriented_bounds_2D(mk()), pl, 2))
+        guarded(r, "oriented_bounds(list)", lambda: box_obs("obL", *B.oriented_bounds(as_list()), pl, 2))
+        guarded(r, "oriented_bounds_2D(None)", lambda: box_obs("o2N", *B.oriented_bounds_2D(Q.copy(), qhull_options=None), pl, 2))
+        r = recs["sphere"]
+        for c, mk in conts[:3]:
+            guarded(r, "minimum_nsphere(%s)" % c, lambda: sphere_obs("mn" + c, *NS.minimum_nsphere(mk()), pl, 2))
+        return
+    r = recs["hull"]
+    for c, mk in conts:
+        guarded(r, "convex_hull(%s)" % c, lambda: hull_obs("ch" + c, CV.convex_hull(mk()), P, pl))
+    for c, opt in (("N", None), ("S", "QbB Pp Qt"), ("O", CV.QhullOptions(Qt=True, Pp=True)), ("J", CV.QhullOptions(QJ=True, Pp=True)),
+                   ("T", "Qt")):
+        guarded(r, "convex_hull(opt %s)" % c, lambda: hull_obs("cq" + c, CV.convex_hull(Q.copy(), qhull_options=opt), P, pl))
+    guarded(r, "convex_hull(repair=False)", lambda: hull_obs("craw", CV.convex_hull(Q.copy(), repair=False), P, pl, raw=True))
+    guarded(r, "PointCloud(list).convex_hull", lambda: hull_obs("pcL", trimesh.PointCloud(as_list()).convex_hull, P, pl))
+    r = recs["obb"]
+    for c, mk in conts[:3]:
+        guarded(r, "oriented_bounds(%s)" % c, lambda: box_obs("ob" + c, *B.oriented_bounds(mk()), pl, 3))
+    axis = [0.0, 0.0, 0.0]
+    axis[it["k"] % 3] = 1.0
+    diag = (np.array([1.0, 2.0, 2.0]) / 3.0)[np.roll(np.arange(3), it["k"] % 3)]
+    for c, kw in (("U", {"ordered": False}), ("D0", {"angle_digits": 0}), ("D3", {"angle_digits": 3}),
+                  ("Na", {"normal": axis}), ("Nd", {"normal": diag}), ("UD", {"ordered": False, "angle_digits": 2})):
+        guarded(r, "oriented_bounds(%s)" % c, lambda: box_obs("ob" + c, *B.oriented_bounds(Q.copy(), **kw), pl, 3))
+    guarded(r, "oriented_bounds(PointCloud)", lambda: box_obs("obG", *B.oriented_bounds(trimesh.PointCloud(Q.copy())), pl, 3))
+
+    def applied_kw():
+        g = trimesh.PointCloud(Q.copy())
+        ext = B.oriented_bounds(Q.copy(), ordered=False, angle_digits=2)[1]
+        M = g.apply_obb(ordered=False, angle_digits=2)
+        return box_obs("apK", M, ext, pl, 3, newv=np.asarray(g.vertices))
+
+    guarded(r, "apply_obb(kwargs)", applied_kw)
+    r = recs["sphere"]
+    for c, mk in conts[:3]:
+        guarded(r, "minimum_nsphere(%s)" % c, lambda: sphere_obs("mn" + c, *NS.minimum_nsphere(mk()), pl, 3))
+    guarded(r, "minimum_nsphere(PointCloud)", lambda: sphere_obs("mnG", *NS.minimum_nsphere(trimesh.PointCloud(Q.copy())), pl, 3))
+    guarded(r, "minimum_nsphere(hull mesh)", lambda: sphere_obs("mnH", *NS.minimum_nsphere(CV.convex_hull(Q.copy())), pl, 3))
+    if "cyl" in recs:
+        r = recs["cyl"]
+        for c, mk, kw in (("S4", lambda: Q.copy(), {"sample_count": 4}), ("T", lambda: Q.copy(), {"angle_tol": 0.01}),
+                          ("L", as_list, {})):
+            def mc():
+                res = B.minimum_cylinder(mk(), **kw)
+                return cyl_obs("mc" + c, res["transform"], res["radius"], res["height"], pl)
+            guarded(r, "minimum_cylinder(%s)" % c, mc)
+
+
+def primitive_obs(p, tag, pl, eps=10):
+    kind = type(p).__name__
+    if kind == "Box":
+        return "obb", box_obs(tag, np.linalg.inv(np.asarray(p.primitive.transform, dtype=np.float64)), p.primitive.extents,
+                              pl, 3, eps=eps)
+    if kind == "Sphere":
+        return "sphere", sphere_obs(tag, p.primitive.center, p.primitive.radius, pl, 3)
+    if kind == "Cylinder":
+        return "cyl", cyl_obs(tag, p.primitive.transform, p.primitive.radius, p.primitive.height, pl, eps=eps)
+    raise Raised("primitive_" + kind)
+
+
+def placed_symmetry(pl, perm, flip, shift=(0, 0, 0), local_placed=True):
+    """4x4 matrix that acts like the lattice map p -> S (p + shift) + c: on placed coordinates (p + off) sc, or,
+    with local_placed=False, on local coordinates p sc that carry no offset (the result is placed in both cases)"""
+    S, c = cube_symmetry(perm, flip)
+    M = np.eye(4)
+    M[:3, :3] = S
+    M[:3, 3] = (S @ np.asarray(shift, dtype=np.float64) + c + pl.off - (S @ pl.off if local_placed else 0.0)) * pl.sc
+    return M
+
+
+def observe_object(trimesh, it):
+    """other geometry classes that expose the same volumes (audit): a Scene of placed parts under lattice
+    symmetries, Box and Extrusion primitives (the latter overrides bounding_box_oriented).  it["pts"] are the
+    lattice points the object is made of; for primitives they are read back from the object"""
+    pl = Place(it["place"], it["off"], it["sce"])
+    spec = it["object"]
+    if spec["kind"] == "scene":
+        tag = "sn"
+
+        def geo():
+            sc = trimesh.Scene()
+            for n, part in enumerate(spec["parts"]):
+                Qp = pl.fwd(part["pts"])
+                if part["faces"] is None:
+                    g = trimesh.PointCloud(Qp)
+                else:
+                    g = trimesh.Trimesh(vertices=Qp, faces=np.array(part["faces"], dtype=np.int64), process=False)
+                sc.add_geometry(g, node_name="n%d" % n, geom_name="g%d" % n,
+                                transform=placed_symmetry(pl, part["perm"], part["flip"]))
+            return sc
+        pts = [list(p) for p in it["pts"]]
+    else:
+        tag = "bx" if spec["kind"] == "box" else "ex"
+
+        def geo():
+            if spec["kind"] == "box":
+                ext = np.array(spec["ext"], dtype=np.float64)
+                M = np.eye(4)
+                M[:3, 3] = (np.array(spec["o"], dtype=np.float64) + ext / 2.0 + pl.off) * pl.sc
+                return trimesh.primitives.Box(extents=ext * pl.sc, transform=M)
+            from shapely.geometry import Polygon
+            poly = Polygon([(x * pl.sc, y * pl.sc) for x, y in spec["poly"]])
+            M = placed_symmetry(pl, spec["perm"], spec["flip"], shift=(0, 0, spec["z0"]), local_placed=False)
+            return trimesh.primitives.Extrusion(polygon=poly, height=spec["h"] * pl.sc, transform=M)
+        V = pl.back(np.asarray(geo().vertices, dtype=np.float64))
+        R = np.round(V)
+        want = {tuple(int(x) for x in q) for q in it["pts"]}
+        if V.ndim != 2 or not len(V) or np.abs(V - R).max() > 1e-9 or {tuple(int(x) for x in q) for q in R} != want:
+            raise MachineryError("primitive %s: its vertices are not the expected lattice points (creation is C15)" % spec)
+        pts = [[int(x) for x in q] for q in R]
+    if len(pts) > 16:
+        raise MachineryError("object with more than 16 points")
+    base = {"exc": "", "dim": 3, "pts": pts, "off": [int(x) for x in it["off"]], "sce": pl.sce, "grid": 3,
+            "sane": bool(it["sane"]), "item": it["k"]}
+    out = []
+
+    def new(kind):
+        r = dict(base, kind=kind, obs=[])
+        out.append(r)
+        return r
+
+    B, NS, CV = trimesh.bounds, trimesh.nsphere, trimesh.convex
+    r = new("hull")
+    guarded(r, tag + ".convex_hull", lambda: hull_obs(tag, geo().convex_hull, pts, pl))
+    guarded(r, "convex_hull(%s)" % tag, lambda: hull_obs(tag + "f", CV.convex_hull(geo().convex_hull.vertices), pts, pl))
+    r = new("aabb")
+    guarded(r, tag + ".bounds", lambda: aabb_obs(tag, geo(), pl))
+    r = new("obb")
+    guarded(r, tag + ".bounding_box_oriented", lambda: primitive_obs(geo().bounding_box_oriented, tag, pl)[1])
+    guarded(r, "oriented_bounds(%s)" % tag, lambda: box_obs(tag + "f", *B.oriented_bounds(geo()), pl, 3))
+    if tag != "sn":
+        def applied():
+            g = geo()
+            # apply_obb calls bounds.oriented_bounds, not the bounding_box_oriented a primitive may override
+            ext = np.array(B.oriented_bounds(geo())[1], dtype=np.float64)
+            M = g.apply_obb()          # moves the primitive itself (its transform)
+            return box_obs(tag + "a", M, ext, pl, 3)
+        guarded(r, tag + ".apply_obb", applied)
+    r = new("sphere")
+    guarded(r, tag + ".bounding_sphere", lambda: primitive_obs(geo().bounding_sphere, tag, pl)[1])
+    guarded(r, "minimum_nsphere(%s)" % tag, lambda: sphere_obs(tag + "f", *NS.minimum_nsphere(geo()), pl, 3))
+    if it["cyl"]:
+        r = new("cyl")
+        guarded(r, tag + ".bounding_cylinder", lambda: primitive_obs(geo().bounding_cylinder, tag, pl)[1])
+        got = {}
+
+        def whichever():
+            got["kind"], o = primitive_obs(geo().bounding_primitive, tag + "p", pl)
+            return o
+
+        r = new("obb")
+        guarded(r, tag + ".bounding_primitive", whichever)
+        r["kind"] = got.get("kind", "obb")
+    return out
+
+
+def observe_big(trimesh, it):
+    """larger sets: 12..64 points / mesh vertices of {0..7}^3 (audit)"""
+    pl = Place(it["place"], it["off"], it["sce"])
+    Q = pl.fwd(it["pts"])
+    eps = eps_of(7)
+    base = {"exc": "", "dim": 3, "pts": [list(p) for p in it["pts"]], "off": [int(x) for x in it["off"]], "sce": pl.sce,
+            "grid": 7, "sane": False, "item": it["k"]}
+    out = []
+
+    def new(kind):
+        r = dict(base, kind=kind, obs=[])
+        out.append(r)
+        return r
+
+    if it["faces"] is None:
+        geo = lambda: trimesh.PointCloud(Q.copy())
+        tag = "pc"
+    else:
+        F = np.array(it["faces"], dtype=np.int64)
+        geo = lambda: trimesh.Trimesh(vertices=Q.copy(), faces=F.copy(), process=False)
+        tag = "mesh"
+        g0 = geo()
+        if len(g0.vertices) != len(Q) or len(g0.faces) != len(F) or not g0.referenced_vertices.all():
+            raise MachineryError("Trimesh(process=False) did not keep the input arrays")
+    B, NS, CV = trimesh.bounds, trimesh.nsphere, trimesh.convex
+    arg = lambda: Q.copy() if it["faces"] is None else geo()
+    r = new("hullb")
+    guarded(r, "convex_hull", lambda: hull_obs("ch", CV.convex_hull(arg()), it["pts"], pl))
+    guarded(r, tag + ".convex_hull", lambda: hull_obs(tag, geo().convex_hull, it["pts"], pl))
+    r = new("aabb")
+    guarded(r, tag + ".bounds", lambda: aabb_obs(tag, geo(), pl))
+    r = new("obb")
+    guarded(r, "oriented_bounds", lambda: box_obs("ob", *B.oriented_bounds(arg()), pl, 3, eps=eps))
+
+    def applied():
+        g = geo()
+        ext = np.array(g.bounding_box_oriented.primitive.extents, dtype=np.float64)
+        M = g.apply_obb()
+        return box_obs("apply", M, ext, pl, 3, newv=np.asarray(g.vertices), eps=eps)
+
+    guarded(r, tag + ".apply_obb", applied)
+    r = new("ballc")
+    guarded(r, "minimum_nsphere", lambda: ball_obs("mn", *NS.minimum_nsphere(Q.copy()), pl, eps))
+
+    def bsphere():
+        p = geo().bounding_sphere.primitive
+        return ball_obs(tag, p.center, p.radius, pl, eps)
+
+    guarded(r, tag + ".bounding_sphere", bsphere)
+    if it["cyl"]:
+        r = new("cyl")
+
+        def bcyl():
+            p = geo().bounding_cylinder.primitive
+            return cyl_obs(tag, p.transform, p.radius, p.height, pl, eps=eps)
+
+        guarded(r, tag + ".bounding_cylinder", bcyl)
+    return out
+
+
+def observe_aniso(trimesh, it):
+    """flat-ish / needle-like sets: the axes are scaled by different powers of two (audit).  Hull combinatorics
+    and the axis-aligned box are invariant under that map; the oriented box is recorded in normalised form"""
+    pl = Place(it["place"], it["off"], it["sce"])
+    Q = pl.fwd(it["pts"])
+    base = {"exc": "", "dim": 3, "pts": [list(p) for p in it["pts"]], "off": [int(x) for x in it["off"]], "sce": pl.sce,
+            "grid": 3, "sane": bool(it["sane"]), "item": it["k"]}
+    out = []
+
+    def new(kind):
+        r = dict(base, kind=kind, obs=[])
+        out.append(r)
+        return r
+
+    if it["faces"] is None:
+        geo = lambda: trimesh.PointCloud(Q.copy())
+        tag = "pc"
+    else:
+        F = np.array(it["faces"], dtype=np.int64)
+        geo = lambda: trimesh.Trimesh(vertices=Q.copy(), faces=F.copy(), process=False)
+        tag = "mesh"
+    CV = trimesh.convex
+    r = new("hull")
+    guarded(r, "convex_hull", lambda: hull_obs("ch", CV.convex_hull(Q.copy() if it["faces"] is None else geo()), it["pts"], pl))
+    guarded(r, tag + ".convex_hull", lambda: hull_obs(tag, geo().convex_hull, it["pts"], pl))
+    r = new("aabb")
+    guarded(r, tag + ".bounds", lambda: aabb_obs(tag, geo(), pl))
+    r = new("obbn")
+
+    def applied():
+        g = geo()
+        ext = np.array(g.bounding_box_oriented.primitive.extents, dtype=np.float64)
+        M = g.apply_obb()
+        return boxn_obs("apply", M, ext, np.asarray(g.vertices))
+
+    def applied_points():
+        T, ext = trimesh.bounds.oriented_bounds(Q.copy())
+        g = trimesh.PointCloud(Q.copy())
+        g.apply_transform(T)
+        return boxn_obs("ob", T, ext, np.asarray(g.vertices))
+
+    guarded(r, tag + ".apply_obb", applied)
+    guarded(r, "oriented_bounds+apply_transform", applied_points)
+    return out
+
+
 def observe(trimesh, it):
     """all records (one per kind) of one placed input"""
     if it.get("wide"):
         return observe_wide(trimesh, it)
     if it.get("script"):
         return observe_history(trimesh, it)
-    pl = Place(it["place"], it["off"], it["sc"])
+    if it.get("object"):
+        return observe_object(trimesh, it)
+    if it.get("grid", 3) == 7:
+        return observe_big(trimesh, it)
+    if len(set(it["sce"])) > 1:
+        return observe_aniso(trimesh, it)
+    pl = Place(it["place"], it["off"], it["sce"])
     d = it["dim"]
     Q = pl.fwd(it["pts"])
     base = {"exc": "", "dim": d, "pts": [list(p) for p in it["pts"]], "off": [int(x) for x in it["off"]],
-            "sc": int(it["sc"]), "sane": bool(it["sane"]), "item": it["k"]}
+            "sce": pl.sce, "grid": 3, "sane": bool(it["sane"]), "item": it["k"]}
     out = []
+    recs = {}
 
     def new(kind):
         r = dict(base, kind=kind, obs=[])
         out.append(r)
+        recs[kind] = r
         return r
 
     B, NS, CV = trimesh.bounds, trimesh.nsphere, trimesh.convex
@@ -365,6 +712,8 @@ def observe(trimesh, it):
         guarded(r, "oriented_bounds", lambda: box_obs("ob", *B.oriented_bounds(Q.copy()), pl, 2))
         r = new("sphere")
         guarded(r, "minimum_nsphere", lambda: sphere_obs("mn", *NS.minimum_nsphere(Q.copy()), pl, 2))
+        if it.get("variants"):
+            observe_variants(trimesh, it, pl, Q, recs)
         return out
     if it["faces"] is None:
         geo = lambda: trimesh.PointCloud(Q.copy())
@@ -429,7 +778,8 @@ def observe(trimesh, it):
             guarded(r, "minimum_cylinder", mincyl)
         if it["faces"] is not None or it["k"] % 2 == 0:
             guarded(r, tag + ".bounding_cylinder", bcyl)
-
+    if it.get("variants"):
+        observe_variants(trimesh, it, pl, Q, recs)
     return out
 
 
@@ -666,14 +1016,66 @@ def planar_families(rs, counts):
 
 def placements(rs, d, how_many):
     """origin first, then `how_many` of: far (+-10^4 on every axis), far on one axis, scaled by 2^10,
-    far and scaled"""
+    far and scaled; (name, offset, exponent of the scale)"""
     sign = lambda: [int(s) for s in rs.choice([-FAR, FAR], d)]
     one = [0] * d
     one[rs.randint(d)] = int(rs.choice([-FAR, FAR]))
-    others = [("far", sign(), 1), ("far_scaled", sign(), BIG), ("scaled", [0] * d, BIG), ("far_one_axis", one, 1)]
+    others = [("far", sign(), 0), ("far_scaled", sign(), BIGE), ("scaled", [0] * d, BIGE), ("far_one_axis", one, 0)]
     first = rs.randint(2)          # always at least one placement far on every axis
     rest = [others[first]] + [others[j] for j in rs.permutation(4) if j != first]
-    return [("origin", [0] * d, 1)] + rest[:how_many]
+    return [("origin", [0] * d, 0)] + rest[:how_many]
+
+
+# "widely scaled and translated far from the origin" (audit): a common scale 2^e and offsets up to 2^30 lattice
+# steps.  The smallest scale keeps distinct lattice points 2^-26 = 1.5e-8 apart: trimesh documents (constants.tol.merge
+# = 1e-8) that closer points are the same vertex, so smaller sets are outside the domain of the property.
+MAG_TINY = (-26, -24, -22, -21, -20, -16)
+# below 2^-21.6 a unit lattice triangle has |cross product| = 2^(2e) <= constants.tol.zero = 1e-13: trimesh counts
+# such a face as degenerate (convex_hull drops it, Trimesh.face_normals is zero).  The records are kept - the
+# property names "widely scaled" sets without a lower bound - and attributed to DEV_TINY when that finding is
+# registered; the predicate is decided from the placement alone (tiny_faces)
+DEV_TINY = "MicroscopicFacesBelowTolZero"
+
+
+def tiny_faces(sce):
+    """some face of the lattice has a cross product of magnitude <= tol.zero: the two thinnest axes together
+    scale a unit square below 2^-43 = 1.1e-13"""
+    e = sorted(sce)
+    return len(e) >= 2 and e[0] + e[1] <= -43
+MAG_HUGE = (20, 30, 36, 37, 40, 50, 60)
+
+
+def magnitude_placements(rs, d):
+    """(name, offset, exponent): every tiny and huge scale once, offsets 2^20 .. 2^30, and both together"""
+    out = [("mag%+d" % e, [0] * d, e) for e in MAG_TINY + MAG_HUGE]
+    for b in (20, 26, 30):
+        out.append(("far2^%d" % b, [int(s) * 2 ** b for s in rs.choice([-1, 1], d)], 0))
+    one = [0] * d
+    one[rs.randint(d)] = int(rs.choice([-1, 1])) * 2 ** 30
+    out.append(("far2^30_one_axis", one, 0))
+    out.append(("mag-20_far2^20", [int(s) * 2 ** 20 for s in rs.choice([-1, 1], d)], -20))
+    out.append(("mag+40_far2^20", [int(s) * 2 ** 20 for s in rs.choice([-1, 1], d)], 40))
+    out.append(("mag-24_far", [int(s) * FAR for s in rs.choice([-1, 1], d)], -24))
+    return out
+
+
+def shape_placements(rs):
+    """(name, offset, exponents per axis): flat-ish (one thin axis), needle-like (two thin axes) and mixed sets;
+    the thinnest axis keeps an aspect >= 2^-24 and a spacing >= 2^-26 (see MAG_TINY)"""
+    out = []
+    for e in (-8, -16, -20, -24):
+        sce = [0, 0, 0]
+        sce[rs.randint(3)] = e
+        out.append(("flat%d" % e, [0, 0, 0], sce))
+        sce = [e, e, e]
+        sce[rs.randint(3)] = 0
+        out.append(("needle%d" % e, [0, 0, 0], sce))
+    out.append(("mixed", [0, 0, 0], [int(x) for x in rs.permutation([-10, 0, 10])]))
+    out.append(("mixed_wide", [0, 0, 0], [int(x) for x in rs.permutation([-12, 0, 12])]))
+    out.append(("flat_big", [0, 0, 0], [int(x) for x in rs.permutation([20, 20, 0])]))
+    out.append(("flat-16_far", [int(s) * FAR for s in rs.choice([-1, 1], 3)], [int(x) for x in rs.permutation([0, 0, -16])]))
+    out.append(("needle_tiny", [0, 0, 0], [int(x) for x in rs.permutation([-2, -26, -26])]))
+    return out
 
 
 def scripts(rs, cyl):
@@ -732,6 +1134,133 @@ def wide_sets(rs, count):
     return out
 
 
+GRID7 = [tuple(p) for p in itertools.product(range(8), repeat=3)]
+
+
+def big_families(rs, counts):
+    """(family, points, faces): 12..64 points / mesh vertices of {0..7}^3 spanning three dimensions (audit)"""
+    def random():
+        return [GRID7[j] for j in rs.choice(512, rs.randint(12, 49), replace=False)], None
+
+    def block():        # a full sub-block: every face of the hull carries many coplanar inputs
+        n = [rs.randint(2, 5) for _ in range(3)]
+        o = [rs.randint(0, 9 - x) for x in n]
+        st = [rs.randint(1, max(1, (7 - o[a]) // max(1, n[a] - 1)) + 1) for a in range(3)]
+        P = [tuple(o[a] + st[a] * q[a] for a in range(3)) for q in itertools.product(*[range(x) for x in n])]
+        return (P, None) if max(max(p) for p in P) <= 7 else None
+
+    def cospherical():  # lattice points on a common sphere around (3.5, 3.5, 3.5) plus a few inside
+        r2 = [19, 27, 35, 43, 51, 59][rs.randint(6)]
+        shell = [p for p in GRID7 if sum((2 * x - 7) ** 2 for x in p) == r2]
+        if len(shell) < 8:
+            return None
+        P = [shell[j] for j in rs.choice(len(shell), min(len(shell), rs.randint(8, 41)), replace=False)]
+        inner = [p for p in GRID7 if sum((2 * x - 7) ** 2 for x in p) < r2 - 16 and p not in P]
+        return P + [inner[j] for j in rs.choice(len(inner), min(len(inner), rs.randint(0, 6)), replace=False)], None
+
+    def layers():       # flat-ish: two adjacent layers of the lattice
+        a, z0 = rs.randint(3), rs.randint(7)
+        pool = [p for p in GRID7 if p[a] in (z0, z0 + 1)]
+        return [pool[j] for j in rs.choice(len(pool), rs.randint(12, 41), replace=False)], None
+
+    def clusters():     # two or three tight clusters in different corners
+        P = set()
+        for c in [rs.randint(0, 2, size=3) * 5 for _ in range(rs.randint(2, 4))]:
+            sub = [tuple(int(c[a] + q[a]) for a in range(3)) for q in itertools.product(range(3), repeat=3)]
+            P |= {sub[j] for j in rs.choice(27, rs.randint(4, 12), replace=False)}
+        return sorted(P), None
+
+    def voxels():       # a (non-convex) closed surface of unit cells, stretched by integer factors
+        cells = {(0, 0, 0)}
+        while len(cells) < rs.randint(3, 8):
+            c = list(cells)[rs.randint(len(cells))]
+            a = rs.randint(3)
+            n = list(c)
+            n[a] += 1
+            if max(n) <= 2:
+                cells.add(tuple(n))
+        v, f = voxel_surface(sorted(cells))
+        st = [rs.randint(1, 3) for _ in range(3)]
+        o = [rs.randint(0, 2) for _ in range(3)]
+        V = [tuple(o[a] + st[a] * q[a] for a in range(3)) for q in v]
+        return (V, f) if max(max(q) for q in V) <= 7 else None
+
+    gens = {"big_random": random, "big_block": block, "big_cospherical": cospherical, "big_layers": layers,
+            "big_clusters": clusters, "big_voxel_mesh": voxels}
+    for fam, gen in gens.items():
+        n = tries = 0
+        while n < counts[fam]:
+            tries += 1
+            if tries > 300 * counts[fam] + 1000:
+                raise MachineryError("family " + fam + " cannot be generated")
+            got = gen()
+            if got is None:
+                continue
+            P, F = got
+            P = [tuple(int(x) for x in q) for q in P]
+            if not (12 <= len(P) <= 64) or len(set(P)) != len(P) or not spans(P, 3):
+                continue
+            if F is None:
+                P = [P[j] for j in rs.permutation(len(P))]
+            yield fam, P, F
+            n += 1
+
+
+def proper_symmetry(rs):
+    """a rotation of the cube {0..3}^3 (axis permutation and reflections with determinant +1)"""
+    while True:
+        perm, flip = [int(x) for x in rs.permutation(3)], [int(x) for x in rs.randint(2, size=3)]
+        if (np.linalg.det(np.eye(3)[perm]) < 0) == (sum(flip) % 2 == 1):
+            return perm, flip
+
+
+def lattice_image(perm, flip, p):
+    """S p + c of cube_symmetry(perm, flip), in integers (input construction)"""
+    return tuple((3 - p[perm[a]]) if flip[a] else p[perm[a]] for a in range(3))
+
+
+def object_items(rs, counts):
+    """(family, object spec, lattice points): scenes of placed parts, Box and Extrusion primitives (audit)"""
+    tet_faces = [[0, 2, 1], [0, 1, 3], [0, 3, 2], [1, 2, 3]]
+    n = 0
+    while n < counts["scene"]:
+        parts, world = [], []
+        for _ in range(rs.randint(2, 4)):
+            perm, flip = [int(x) for x in rs.permutation(3)], [int(x) for x in rs.randint(2, size=3)]
+            if rs.rand() < 0.4:
+                T = [GRID3[j] for j in rs.choice(64, 4, replace=False)]
+                A = np.array(T)
+                det = round(np.linalg.det((A[1:] - A[0]).astype(float)))
+                if det == 0:
+                    continue
+                faces = tet_faces if det > 0 else [[a, c, b] for a, b, c in tet_faces]
+                parts.append({"pts": [list(p) for p in T], "faces": faces, "perm": perm, "flip": flip})
+            else:
+                T = [GRID3[j] for j in rs.choice(64, rs.randint(1, 6), replace=False)]
+                parts.append({"pts": [list(p) for p in T], "faces": None, "perm": perm, "flip": flip})
+            world += [lattice_image(perm, flip, p) for p in T]
+        if len(parts) >= 2 and 5 <= len(world) <= 14 and spans(world, 3):
+            yield "object_scene", {"kind": "scene", "parts": parts}, world
+            n += 1
+    for _ in range(counts["box"]):
+        ext = [int(rs.randint(1, 4)) for _ in range(3)]
+        o = [int(rs.randint(0, 4 - e)) for e in ext]
+        yield "object_box", {"kind": "box", "ext": ext, "o": o}, \
+            [tuple(o[a] + ext[a] * q[a] for a in range(3)) for q in itertools.product((0, 1), repeat=3)]
+    polys = [[(0, 0), (3, 0), (3, 3), (0, 3)], [(0, 0), (2, 0), (2, 1), (0, 1)], [(1, 0), (3, 0), (3, 2), (1, 2)],
+             [(0, 0), (3, 0), (0, 2)], [(0, 0), (3, 1), (1, 3)], [(0, 0), (2, 0), (3, 2), (1, 3)],
+             [(0, 0), (3, 0), (3, 1), (1, 1), (1, 3), (0, 3)], [(0, 0), (2, 0), (2, 2), (3, 2), (3, 3), (0, 3)],
+             [(1, 0), (2, 0), (3, 1), (3, 2), (2, 3), (1, 3), (0, 2), (0, 1)], [(0, 1), (1, 0), (3, 0), (3, 2), (2, 3), (0, 3)]]
+    for j in range(counts["extrusion"]):
+        poly = polys[j % len(polys)]
+        h = int(rs.randint(1, 4)) * (1 if rs.rand() < 0.5 else -1)
+        z0 = int(rs.randint(max(0, -h), 3 - max(0, h) + 1))
+        perm, flip = proper_symmetry(rs)
+        pts = sorted({lattice_image(perm, flip, (x, y, z0 + z)) for x, y in poly for z in (0, h)})
+        yield "object_extrusion", {"kind": "extrusion", "poly": [list(q) for q in poly], "h": h, "z0": z0,
+                                   "perm": perm, "flip": flip}, pts
+
+
 def work_items(tier):
     rs = np.random.RandomState(seed() + 1616)
     big = tier == "thorough"
@@ -742,13 +1271,21 @@ def work_items(tier):
     items = []
     base = 0
 
+    def put(fam, dim, pts, faces, name, off, sce, lean=False, **more):
+        k = len(items)
+        it = {"k": k, "base": base, "family": fam, "dim": dim, "pts": pts, "faces": faces,
+              "place": name, "off": [int(x) for x in off], "lean": lean,
+              "sce": [int(e) for e in (sce if isinstance(sce, (list, tuple)) else [sce] * dim)],
+              "cyl": dim == 3 and not lean and (faces is not None or k % 5 == 0), "sane": k % 8 == 0}
+        it.update(more)
+        items.append(it)
+        return it
+
     def add(fam, dim, pts, faces, nplace, lean=False):
         nonlocal base
-        for name, off, sc in placements(rs, dim, nplace):
-            k = len(items)
-            items.append({"k": k, "base": base, "family": fam, "dim": dim, "pts": pts, "faces": faces,
-                          "place": name, "off": off, "sc": sc, "lean": lean,
-                          "cyl": dim == 3 and not lean and (faces is not None or k % 5 == 0), "sane": k % 8 == 0})
+        for name, off, sce in placements(rs, dim, nplace):
+            # every fourth full item also goes through the other options / containers (audit)
+            put(fam, dim, pts, faces, name, off, sce, lean=lean, variants=(not lean and len(items) % 4 == 1))
         base += 1
 
     for fam, P in point_families(rs, counts):
@@ -766,21 +1303,17 @@ def work_items(tier):
     for j, (tag, P, F) in enumerate(objs):
         if len(P) > 12:
             continue
-        name, off, sc = placements(rs, 3, 1)[j % 2]
+        name, off, sce = placements(rs, 3, 1)[j % 2]
         for n, script in enumerate(scripts(rs, cyl=(j % 4 == 0))):
             if n == 3 and j % 3:
                 continue        # bounding_primitive evaluates the (slow) cylinder: every third object
             if (j + n) % 2 == 0 or tag == "mesh":
-                k = len(items)
-                items.append({"k": k, "base": base, "family": "history_" + tag, "dim": 3, "pts": P, "faces": F,
-                              "place": name, "off": off, "sc": sc, "script": script, "sane": False})
+                put("history_" + tag, 3, P, F, name, off, sce, script=script, sane=False)
         base += 1
     # ---- wide inputs
     for fam, P in wide_sets(rs, 30 * m):
-        for name, off, sc in placements(rs, 3, 1):
-            k = len(items)
-            items.append({"k": k, "base": base, "family": fam, "dim": 3, "pts": P, "faces": None, "wide": True,
-                          "place": name, "off": off, "sc": sc, "sane": k % 4 == 0})
+        for name, off, sce in placements(rs, 3, 1):
+            put(fam, 3, P, None, name, off, sce, wide=True, sane=len(items) % 4 == 0)
         base += 1
     if big:
         # every 4- and 5-point subset of {0,1,2}^3 that spans three dimensions (every fourth also far away)
@@ -789,18 +1322,71 @@ def work_items(tier):
             for j, S in enumerate(itertools.combinations(grid, n)):
                 if spans(S, 3):
                     add("all_%d_subsets_of_grid3" % n, 3, list(S), None, 1 if j % 4 == 0 else 0, lean=True)
+    # ================= audit families (their own random stream: the enumeration above is unchanged)
+    rs = np.random.RandomState(seed() + 161616)
+    ma = 6 if big else 1
+    # ---- magnitudes: a common scale 2^-26 .. 2^60, offsets up to 2^30 lattice steps
+    mcounts = {"random": 16 * ma, "block": 8 * ma, "slab": 2 * ma, "cluster": 6 * ma, "flat": 8 * ma,
+               "generic": 12 * ma, "ties": 8 * ma, "dups": 2 * ma}
+    bases = [(fam, P, None) for fam, P in point_families(rs, mcounts)]
+    bases += [("mesh_" + name, v, f) for name, v, f in mesh_library(rs, 6 * ma)][:14 * ma]
+    for j, (fam, P, F) in enumerate(bases):
+        mags = magnitude_placements(rs, 3)
+        take = range(len(mags)) if big else [(5 * j + i) % len(mags) for i in range(5)]
+        for i in take:
+            put("mag_" + fam, 3, P, F, *mags[i])
+        base += 1
+    for j, (fam, P) in enumerate(planar_families(rs, {"planar_random": 10 * ma, "planar_generic": 10 * ma, "planar_block": 4 * ma})):
+        mags = magnitude_placements(rs, 2)
+        for i in (range(len(mags)) if big else [(4 * j + i) % len(mags) for i in range(4)]):
+            put("mag_" + fam, 2, P, None, *mags[i])
+        base += 1
+    # ---- shapes: the axes scaled by different powers of two (flat-ish, needle-like)
+    scounts = {"random": 14 * ma, "block": 6 * ma, "slab": 2 * ma, "cluster": 4 * ma, "flat": 6 * ma,
+               "generic": 4 * ma, "ties": 6 * ma, "dups": 2 * ma}
+    bases = [(fam, P, None) for fam, P in point_families(rs, scounts)]
+    bases += [("mesh_" + name, v, f) for name, v, f in mesh_library(rs, 4 * ma)][:10 * ma]
+    for j, (fam, P, F) in enumerate(bases):
+        shapes = shape_placements(rs)
+        for i in (range(len(shapes)) if big else [(4 * j + i) % len(shapes) for i in range(4)]):
+            put("shape_" + fam, 3, P, F, *shapes[i])
+        base += 1
+    # ---- larger sets of {0..7}^3
+    bcounts = {"big_random": 16 * ma, "big_block": 10 * ma, "big_cospherical": 10 * ma, "big_layers": 8 * ma,
+               "big_clusters": 8 * ma, "big_voxel_mesh": 12 * ma}
+    for fam, P, F in big_families(rs, bcounts):
+        for name, off, sce in placements(rs, 3, 3 if big else 1):
+            put(fam, 3, P, F, name, off, sce, grid=7, cyl=(len(items) % 4 == 0), sane=False)
+        base += 1
+    # ---- other geometry classes
+    for fam, spec, pts in object_items(rs, {"scene": 40 * ma, "box": 10 * ma, "extrusion": 20 * ma}):
+        for name, off, sce in placements(rs, 3, 3 if big else 1):
+            put(fam, 3, [tuple(p) for p in pts], None, name, off, sce, object=spec, cyl=(len(items) % 3 == 0))
+        base += 1
     return items
 
 
 # ------------------------------------------------------------------ verdicts
+def family_group(it):
+    """coarse family of an item for the coverage guards"""
+    f = it["family"]
+    for g in ("mag_", "shape_", "big_", "object_", "history_", "wide_"):
+        if f.startswith(g):
+            return g[:-1]
+    return "base"
+
+
 def detail_of(rec, it):
-    d = {"family": it["family"], "dim": it["dim"], "place": it["place"], "off": it["off"], "sc": it["sc"],
+    d = {"family": it["family"], "dim": it["dim"], "place": it["place"], "off": it["off"], "sce": it["sce"],
          "pts": it["pts"], "faces": it["faces"], "kind": rec["kind"], "exc": rec["exc"], "obs": rec["obs"]}
     if it.get("script"):
         d.update(script=it["script"], history=rec.get("hist", ""), vertices_then=rec["pts"],
-                 off_then=rec["off"], sc_then=rec["sc"])
+                 off_then=rec["off"], sce_then=rec["sce"])
     if it.get("wide"):
         d["wide"] = True
+    for k in ("grid", "object", "variants"):
+        if it.get(k):
+            d[k] = it[k]
     return d
 
 
@@ -814,10 +1400,15 @@ def main(argv):
         items = []
         for v in rp["violations"]:
             d = v["detail"]
-            for name, off, sc in (("origin", [0] * d["dim"], 1), (d["place"], d["off"], d["sc"])):
+            plain = not (d.get("grid") or d.get("object")) and len(set(d["sce"])) == 1
+            twins = [("origin", [0] * d["dim"], [0] * d["dim"])] if plain else []
+            for name, off, sce in twins + [(d["place"], d["off"], d["sce"])]:
                 it = {"k": len(items), "base": len(items) // 2, "family": d["family"], "dim": d["dim"],
                       "pts": [tuple(p) for p in d["pts"]], "faces": d["faces"], "place": name, "off": off,
-                      "sc": sc, "cyl": d["dim"] == 3, "sane": True}
+                      "sce": sce, "cyl": d["dim"] == 3, "sane": plain}
+                for k in ("grid", "object", "variants"):
+                    if d.get(k):
+                        it[k] = d[k]
                 if d.get("script"):
                     it.update(script=[tuple(x) for x in d["script"]], sane=False)
                 if d.get("wide"):
@@ -829,7 +1420,7 @@ def main(argv):
         raise MachineryError("too few inputs enumerated")
     states = total = nrej = 0
     wall = 0.0
-    fam, kinds, apis, places, notes, stats = {}, {}, {}, {}, {}, {}
+    fam, kinds, apis, places, notes, stats, groups_seen = {}, {}, {}, {}, {}, {}, {}
     samples = []
     bump = lambda d, k, n=1: d.__setitem__(k, d.get(k, 0) + n)
     round_size = 12000 if tier == "thorough" else 4000
@@ -858,10 +1449,17 @@ def main(argv):
         for c in cases:
             it = byitem[c["item"]]
             bump(kinds, c["kind"])
-            if c["kind"] == "obb":
+            if c["kind"] in ("obb", "obbn"):
                 bump(places, it["place"])
-            if c["kind"] in ("hull", "hullw"):
+            if c["kind"] in ("hull", "hullw", "hullb"):
                 bump(fam, it["family"])
+            bump(groups_seen, family_group(it) + ":" + c["kind"])
+            if it.get("variants"):
+                bump(stats, "records_with_option_and_container_variants")
+            if family_group(it) == "mag":
+                e = it["sce"][0]
+                bump(stats, "magnitude_records_tiny_scale" if e < 0 else "magnitude_records_huge_scale" if e > 0
+                     else "magnitude_records_far_offset")
             if it.get("script"):
                 bump(stats, "records_read_in_a_history_after_a_move", int(any(
                     x in c.get("hist", "") for x in ("translate", "scale", "symmetry"))))
@@ -869,7 +1467,7 @@ def main(argv):
                     x in c.get("hist", "") for x in ("translate", "scale", "symmetry"))))
             for o in c["obs"]:
                 bump(apis, c["kind"] + ":" + o["api"])
-            if c["kind"] == "hull" and not c["exc"] and c["obs"]:
+            if c["kind"] in ("hull", "hullb") and not c["exc"] and c["obs"]:
                 o = c["obs"][0]
                 bump(stats, "hulls_with_an_input_that_is_no_vertex", int(len(set(o["hv"])) < len(set(it["pts"]))))
                 bump(stats, "hulls_with_a_zero_area_face", int(any(x["zero_area_faces"] for x in c["obs"])))
@@ -889,6 +1487,9 @@ def main(argv):
             if c["kind"] == "hull" and any(it["off"]) and it["base"] in origin_ok \
                     and name in ("hull_not_watertight", "hull_reports_is_watertight_false"):
                 dev = DEV_HULL_FAR
+            if c["kind"] in ("hull", "obb", "obbn", "sphere", "cyl") and c["dim"] == 3 and tiny_faces(it["sce"]) \
+                    and not name.startswith("sphere_not_minimal"):
+                dev = DEV_TINY
             if c["kind"] == "sphere" and name.startswith("sphere_not_minimal") \
                     and name.rsplit("_", 1)[-1] in ("1", "2", "3")[:c["dim"]]:
                 dev = DEV_SPHERE          # fewer than dim + 1 inputs on the boundary of the minimal ball
@@ -908,6 +1509,23 @@ def main(argv):
             raise MachineryError(f"enumeration nearly empty: {kinds} {stats}")
         if decided < 100:
             raise MachineryError(f"minimality clause decided on {decided} records only: {notes}")
+        # audit families
+        need = {"mag:hull": 150, "mag:aabb": 150, "mag:obb": 150, "mag:sphere": 150, "mag:cyl": 30,
+                "shape:hull": 100, "shape:aabb": 100, "shape:obbn": 100,
+                "big:hullb": 60, "big:aabb": 60, "big:obb": 60, "big:ballc": 60, "big:cyl": 10,
+                "object:hull": 50, "object:aabb": 50, "object:obb": 50, "object:sphere": 50, "object:cyl": 10}
+        short = {k: groups_seen.get(k, 0) for k, n in need.items() if groups_seen.get(k, 0) < n}
+        tags = {"hull:chL", "hull:chF", "hull:chV", "hull:cqN", "hull:cqS", "hull:cqO", "hull:cqJ", "hull:craw",
+                "hull:pcL", "obb:obL", "obb:obU", "obb:obD0", "obb:obD3", "obb:obNa", "obb:obNd", "obb:obG", "obb:apK",
+                "obb:o2L", "obb:o2N", "sphere:mnL", "sphere:mnG", "sphere:mnH", "cyl:mcS4", "cyl:mcT", "cyl:mcL",
+                "hull:sn", "hull:bx", "hull:ex", "obb:sn", "obb:bx", "obb:ex", "obb:exa", "sphere:sn", "obbn:apply", "obbn:ob"}
+        thin = {t: apis.get(t, 0) for t in tags if apis.get(t, 0) < 10}
+        for t in ("hull:chI", "hull:ch32", "obb:obI", "obb:ob32", "sphere:mnI", "sphere:mn32"):
+            if apis.get(t, 0) < 30:
+                thin[t] = apis.get(t, 0)
+        if short or thin or stats.get("magnitude_records_tiny_scale", 0) < 150 \
+                or stats.get("magnitude_records_huge_scale", 0) < 150 or stats.get("magnitude_records_far_offset", 0) < 100:
+            raise MachineryError(f"audit families nearly empty: {short} {thin} {stats}")
     cov = {
         "states": states, "transitions": states,
         "traces_validated_against_impl": total,
@@ -916,6 +1534,7 @@ def main(argv):
         "records_per_kind": kinds,
         "observations_per_api": apis,
         "hull_records_per_family": fam,
+        "records_per_family_group_and_kind": groups_seen,
         "placed_inputs_per_placement": places,
         "exercised": stats,
         "sphere_records_accepted_by_tlc": notes,
